@@ -624,8 +624,10 @@ func (s *sqlStore) getSubjectVPsOnService(serviceID string, subjectDIDs []did.DI
 }
 
 // wipeOnSeedChange wipes the store on a testSeed change.
-func (s *sqlStore) wipeOnSeedChange(serviceID string, seed string) error {
-	return s.db.Transaction(func(tx *gorm.DB) error {
+// It returns true if the store was wiped (and the timestamp of the service was reset to 0).
+func (s *sqlStore) wipeOnSeedChange(serviceID string, seed string) (bool, error) {
+	wiped := false
+	err := s.db.Transaction(func(tx *gorm.DB) error {
 		// get the service
 		service, err := s.findAndLockService(tx, serviceID)
 		if err != nil {
@@ -644,8 +646,12 @@ func (s *sqlStore) wipeOnSeedChange(serviceID string, seed string) error {
 			// reset the testSeed and timestamp
 			service.Seed = seed
 			service.LastLamportTimestamp = 0
-			return tx.Save(service).Error
+			if err = tx.Save(service).Error; err != nil {
+				return err
+			}
+			wiped = true
 		}
 		return nil
 	})
+	return wiped, err
 }
